@@ -248,9 +248,11 @@ func (c *Ctx) Check(k *Case) {
 	done := make(chan error, 1)
 	go func() { done <- cmd.Run() }()
 	var err error
+	timer := time.NewTimer(40 * time.Second)
+	defer timer.Stop() // (time.After would keep every timer alive for its whole period)
 	select {
 	case err = <-done:
-	case <-time.After(40 * time.Second):
+	case <-timer.C:
 		cmd.Process.Kill()
 		fail("does-not-exit", "gmars "+strings.Join(args, " ")+" did not exit within 40 s (the longest run of the grid takes about a second)")
 		c.hangs++
